@@ -141,7 +141,8 @@ theorem emitParamStr_ok (name : Str) (p : Param) (et ww edd : Bool) (blk : Str) 
 /-- **descriptions** the theorems cover -/
 structure GoodDesc (d : Str) : Prop where
   ne : d ≠ []
-  chars : ∀ c ∈ d, c ≠ ':' ∧ isLineBreak c = false
+  noBreak : NoBreak d
+  noTok : NoTok d
   headNS : HeadNS d
   lastNS : LastNS d
   noDef1 : contains d "Defaults".toList = false
@@ -266,25 +267,10 @@ theorem baseOf_cases (d : Str) : C01.baseOf d = d ∨ C01.baseOf d = d ++ ['.'] 
   | none => right; rfl
   | some c => simp only []; split <;> simp
 
-/-- a pattern whose characters all differ from `c` cannot straddle into a continuation that starts with `c` -/
-theorem isPrefixOf_append_of_notin (pat d z : Str) (c : Char) (hc : c ∉ pat) :
-    pat.isPrefixOf (d ++ c :: z) = pat.isPrefixOf d := by
-  induction pat generalizing d with
-  | nil => simp
-  | cons p ps ih =>
-    have hpc : (p == c) = false := by
-      cases hb : (p == c) with
-      | false => rfl
-      | true => exact absurd (by simp [beq_iff_eq.mp hb]) hc
-    cases d with
-    | nil => simp [List.isPrefixOf, hpc]
-    | cons x xs =>
-      simp only [List.cons_append, List.isPrefixOf]
-      rw [ih xs (fun e => hc (by simp [e]))]
-
 structure GoodText (t : Str) : Prop where
   ne : t ≠ []
-  chars : ∀ c ∈ t, c ≠ ':' ∧ isLineBreak c = false
+  noBreak : NoBreak t
+  noTok : NoTok t
   headNS : HeadNS t
   lastNS : LastNS t
   noOpt : startsWith t ['O','p','t','i','o','n','a','l'] = false
@@ -295,7 +281,7 @@ theorem docText_good (p : Param) (edd : Bool) (hp : GoodEntry p) : GoodText (doc
   | none => exact absurd hd hp.docSome
   | some d =>
     have g := hp.doc d hd
-    have gd : GoodText d := ⟨g.ne, g.chars, g.headNS, g.lastNS, g.noOpt⟩
+    have gd : GoodText d := ⟨g.ne, g.noBreak, g.noTok, g.headNS, g.lastNS, g.noOpt⟩
     cases hv : (if edd then p.default else Option.none) with
     | none => exact gd
     | some v =>
@@ -313,19 +299,41 @@ theorem docText_good (p : Param) (edd : Bool) (hp : GoodEntry p) : GoodText (doc
         rcases baseOf_cases d with e | e
         · exact ⟨cs0, by rw [e, hd0], Or.inl rfl⟩
         · exact ⟨cs0 ++ ['.'], by rw [e, hd0]; rfl, Or.inr rfl⟩
-      refine ⟨?_, ?_, ?_, ?_, ?_⟩
+      have hrcol : ':' ∉ renderVal v := fun h => (rch _ h).1 rfl
+      refine ⟨?_, ?_, ?_, ?_, ?_, ?_⟩
       · obtain ⟨tl, e, _⟩ := hbase; rw [e]; simp
       · intro c hc
         simp only [List.mem_append] at hc
         rcases hc with (hc | hc) | hc
         · rcases baseOf_cases d with e | e
-          · rw [e] at hc; exact g.chars c hc
+          · rw [e] at hc; exact g.noBreak c hc
           · rw [e] at hc
             rcases List.mem_append.mp hc with h1 | h1
-            · exact g.chars c h1
+            · exact g.noBreak c h1
             · simp only [List.mem_singleton] at h1; subst h1; decide
         · revert hc; revert c; decide
-        · exact ⟨(rch c hc).1, (rch c hc).2.1⟩
+        · exact (rch c hc).2.1
+      · -- no token: none in the description, none can straddle into or lie in the appended prose
+        rcases baseOf_cases d with e | e
+        · rw [e, List.append_assoc]
+          have : defaultsTo ++ renderVal v = ' ' :: (defaultsTo.drop 1 ++ renderVal v) := rfl
+          rw [this]
+          refine noTok_append d _ ' ' g.noTok (Or.inl rfl) ?_
+          rw [← this]
+          intro hm
+          rcases List.mem_append.mp hm with h | h
+          · revert h; decide
+          · exact hrcol h
+        · rw [e, List.append_assoc, List.append_assoc]
+          have : ['.'] ++ (defaultsTo ++ renderVal v) = '.' :: (defaultsTo ++ renderVal v) := rfl
+          rw [this]
+          refine noTok_append d _ '.' g.noTok (Or.inr (Or.inl rfl)) ?_
+          intro hm
+          simp only [List.mem_cons, List.mem_append] at hm
+          rcases hm with h | h | h
+          · revert h; decide
+          · revert h; decide
+          · exact hrcol h
       · intro c hc
         obtain ⟨tl, e, _⟩ := hbase
         rw [e] at hc
@@ -594,12 +602,12 @@ theorem noBreak_lit (s : Str) (h : s.all (fun c => !isLineBreak c) = true) : NoB
 theorem paramLine_good (name doc : Str) (hn : GoodName name) (hd : GoodText doc) : GoodLine (paramLine name doc) := by
   refine ⟨⟨['p','a','r','a','m',' '] ++ name ++ [':',' '] ++ doc, by simp [paramLine, pfxParam], ?_⟩, ?_⟩
   · exact noBreak_append _ _ (noBreak_append _ _ (noBreak_append _ _ (noBreak_lit _ (by decide)) (noBreak_of_chars _ hn.chars))
-      (noBreak_lit _ (by decide))) (noBreak_of_chars _ hd.chars)
+      (noBreak_lit _ (by decide))) hd.noBreak
   · exact lastNS_append _ doc hd.ne hd.lastNS
 
 theorem returnLine_good (doc : Str) (hd : GoodText doc) : GoodLine (returnLine doc) := by
   refine ⟨⟨['r','e','t','u','r','n'] ++ [':',' '] ++ doc, by simp [returnLine, pfxReturn], ?_⟩, ?_⟩
-  · exact noBreak_append _ _ (noBreak_lit _ (by decide)) (noBreak_of_chars _ hd.chars)
+  · exact noBreak_append _ _ (noBreak_lit _ (by decide)) hd.noBreak
   · exact lastNS_append _ doc hd.ne hd.lastNS
 
 theorem lastNS_bt3 : LastNS bt3 := by intro c hc; simp [bt3] at hc; subst hc; decide
@@ -740,7 +748,7 @@ theorem mapOut_blocks (ps : List (Str × Param)) (et ww edd : Bool) (blocks : Li
 /-! ### the domain of interfaces, and the lines of the emitted text -/
 
 structure GoodIR (ir : IR) : Prop where
-  hdr : ir.doc = [] ∨ (GoodHeader ir.doc ∧ ':' ∉ ir.doc)
+  hdr : ir.doc = [] ∨ (GoodHeader ir.doc ∧ NoTok ir.doc)
   names : ∀ np ∈ ir.params, GoodName np.1
   entries : ∀ np ∈ ir.params, GoodEntry np.2
   nodup : (ir.params.map (·.1)).Nodup
@@ -784,7 +792,7 @@ theorem join_split1_nonempty (s : Str) : split1 s '\n' ≠ [] := splitOn1_ne_nil
 /-- **Shape of the emitted text.**  Its lines are header lines (free of `:`, giving back the header when joined and
     stripped) followed, for each entry, by the entry's lines and one blank line. -/
 theorem emit_lines (ir : IR) (et ww edd : Bool) (s : Str) (g : GoodIR ir) (he : emit ir .rest et ww edd = .ok s) :
-    ∃ hdr, split1 s '\n' = hdr ++ (allBlocks ir et edd).flatMap (· ++ [[]]) ∧ (∀ l ∈ hdr, ':' ∉ l)
+    ∃ hdr, split1 s '\n' = hdr ++ (allBlocks ir et edd).flatMap (· ++ [[]]) ∧ (∀ l ∈ hdr, NoTok l)
       ∧ strip (join ['\n'] hdr) = ir.doc := by
   rw [emit_rest_eq] at he
   unfold emitRest' at he
@@ -799,9 +807,9 @@ theorem emit_lines (ir : IR) (et ww edd : Bool) (s : Str) (g : GoodIR ir) (he : 
       rcases g.hdr with h | h
       · exact Or.inl h
       · exact Or.inr h.1
-    have hcol : ':' ∉ ir.doc := by
+    have hcol : NoTok ir.doc := by
       rcases g.hdr with h | h
-      · rw [h]; simp
+      · rw [h]; exact noTok_nil
       · exact h.2
     have hstrip : strip ir.doc = ir.doc := by
       rcases g.hdr with h | h
@@ -837,7 +845,7 @@ theorem emit_lines (ir : IR) (et ww edd : Bool) (s : Str) (g : GoodIR ir) (he : 
     -- from a text `pre ++ body ++ "\n"` to the lines
     have fromPre : ∀ pre : Str, Pre ir.doc pre → allBlocks ir et edd ≠ [] →
         s = pre ++ join ['\n', '\n'] ((allBlocks ir et edd).map (join ['\n'])) ++ ['\n'] →
-        ∃ hdr, split1 s '\n' = hdr ++ (allBlocks ir et edd).flatMap (· ++ [[]]) ∧ (∀ l ∈ hdr, ':' ∉ l)
+        ∃ hdr, split1 s '\n' = hdr ++ (allBlocks ir et edd).flatMap (· ++ [[]]) ∧ (∀ l ∈ hdr, NoTok l)
           ∧ strip (join ['\n'] hdr) = ir.doc := by
       intro pre hpre hne hs
       have hbodyL := split1_body (allBlocks ir et edd) hne hall
@@ -851,7 +859,7 @@ theorem emit_lines (ir : IR) (et ww edd : Bool) (s : Str) (g : GoodIR ir) (he : 
         refine ⟨[], ?_, by simp, by rw [h0]; rfl⟩
         rw [hs, List.nil_append, List.nil_append, hbl]
       | nl h0 =>
-        refine ⟨[[]], ?_, by simp, by rw [h0]; rfl⟩
+        refine ⟨[[]], ?_, by intro l hl; simp only [List.mem_singleton] at hl; subst hl; exact noTok_nil, by rw [h0]; rfl⟩
         rw [hs]
         show split1 ('\n' :: (body ++ ['\n'])) '\n' = _
         rw [split1_cons_sep, hbl]; rfl
@@ -862,8 +870,8 @@ theorem emit_lines (ir : IR) (et ww edd : Bool) (s : Str) (g : GoodIR ir) (he : 
           rw [e, split1_append_sep, split1_cons_sep, hbl]; simp
         · intro l hl
           rcases List.mem_append.mp hl with hl | hl
-          · exact split1_mem_notin _ _ _ hcol l hl
-          · simp only [List.mem_singleton] at hl; subst hl; simp
+          · exact noTok_lines _ _ hcol l hl
+          · simp only [List.mem_singleton] at hl; subst hl; exact noTok_nil
         · rw [join_append_singleton _ _ _ (join_split1_nonempty _), join_split1]
           have := strip_core [] ir.doc ['\n'] allSpace_nil allSpace_nl hg.headNS hg.lastNS
           simpa using this
@@ -892,14 +900,14 @@ theorem emit_lines (ir : IR) (et ww edd : Bool) (s : Str) (g : GoodIR ir) (he : 
         simp only [List.flatMap_nil, List.append_nil]
         rcases outOf_shape_nothing ir.doc hh with e | e
         · rw [e] at hs; rw [← hs]
-          exact ⟨split1 ir.doc '\n', rfl, split1_mem_notin _ _ _ hcol, by rw [join_split1]; exact hstrip⟩
+          exact ⟨split1 ir.doc '\n', rfl, noTok_lines _ _ hcol, by rw [join_split1]; exact hstrip⟩
         · rw [e] at hs; rw [← hs]
           refine ⟨[] :: split1 ir.doc '\n', split1_cons_sep _ _, ?_, ?_⟩
           · intro l hl
             simp only [List.mem_cons] at hl
             rcases hl with rfl | hl
-            · simp
-            · exact split1_mem_notin _ _ _ hcol l hl
+            · exact noTok_nil
+            · exact noTok_lines _ _ hcol l hl
           · cases hsp : split1 ir.doc '\n' with
             | nil => exact absurd hsp (join_split1_nonempty _)
             | cons y r =>
